@@ -102,7 +102,9 @@ def classify(prop, codemod, before, after1, after2):
                 for a in list(n.args) + [k.value for k in n.keywords]:
                     for m in ast.walk(a):
                         if isinstance(m, ast.Call) and ast.dump(m.func) == outer:
-                            return "kf_nested_selected_calls"
+                            # per codemod: the defect is known for the transformers that rebuild the outer call from
+                            # original_node; the same behaviour appearing in another codemod is a new violation
+                            return "kf_nested_selected_calls:" + name
     return f"unlisted_{prop}_{name}"
 
 
